@@ -690,8 +690,9 @@ func coordMain(w World, prop string) int {
 	}
 	if len(harness) == 0 || exit == ExitViolation {
 		if agg.Runs > 0 {
-			_ = os.MkdirAll(filepath.Join(verifRoot(), "evidence"), 0o755)
-			if err := writeJSON(filepath.Join(verifRoot(), "evidence", prop+".json"), ev); err != nil {
+			evDir := envStr("VERIF_EVIDENCE_DIR", filepath.Join(verifRoot(), "evidence"))
+			_ = os.MkdirAll(evDir, 0o755)
+			if err := writeJSON(filepath.Join(evDir, prop+".json"), ev); err != nil {
 				harness = append(harness, "cannot write evidence: "+err.Error())
 			}
 		}
